@@ -110,6 +110,8 @@ pub struct MsgObs {
     /// results of the send half of the pattern
     pub sent: String,
     pub recv_data_calls: usize,
+    /// the call in progress: "resolve" | "recv_response" | "recv_data" | "recv_trailers" | "send_response" | "send_data" | "finish" | "done"
+    pub stage: String,
 }
 
 pub type Shared<T> = std::rc::Rc<std::cell::RefCell<T>>;
@@ -123,10 +125,13 @@ pub async fn server_handler(
     out: Shared<MsgObs>,
     respond: bool,
 ) {
+    out.borrow_mut().stage = "resolve".into();
     let (req, mut stream) = match resolver.resolve_request().await {
         Ok(x) => x,
         Err(e) => {
-            out.borrow_mut().head = stream_class(&e);
+            let mut o = out.borrow_mut();
+            o.head = stream_class(&e);
+            o.stage = "done".into();
             return;
         }
     };
@@ -136,7 +141,11 @@ pub async fn server_handler(
         o.head_info = format!("{} {} {}", req.method(), req.uri(), headermap_str(req.headers()));
     }
     loop {
-        out.borrow_mut().recv_data_calls += 1;
+        {
+            let mut o = out.borrow_mut();
+            o.recv_data_calls += 1;
+            o.stage = "recv_data".into();
+        }
         match stream.recv_data().await {
             Ok(Some(b)) => {
                 let v = drain(b);
@@ -147,22 +156,31 @@ pub async fn server_handler(
                 break;
             }
             Err(e) => {
-                out.borrow_mut().body_end = stream_class(&e);
+                let mut o = out.borrow_mut();
+                o.body_end = stream_class(&e);
+                o.stage = "done".into();
                 return;
             }
         }
     }
+    out.borrow_mut().stage = "recv_trailers".into();
     match stream.recv_trailers().await {
         Ok(Some(t)) => out.borrow_mut().trailers = format!("some:{}", headermap_str(&t)),
         Ok(None) => out.borrow_mut().trailers = "none".into(),
         Err(e) => {
-            out.borrow_mut().trailers = stream_class(&e);
+            let mut o = out.borrow_mut();
+            o.trailers = stream_class(&e);
+            o.stage = "done".into();
             return;
         }
     }
     if respond {
         let r = async {
+            out.borrow_mut().stage = "send_response".into();
             stream.send_response(http::Response::builder().status(200).body(()).unwrap()).await?;
+            out.borrow_mut().stage = "send_data".into();
+            stream.send_data(Bytes::from_static(b"pong")).await?;
+            out.borrow_mut().stage = "finish".into();
             stream.finish().await
         }
         .await;
@@ -171,10 +189,12 @@ pub async fn server_handler(
             Err(e) => stream_class(&e),
         };
     }
+    out.borrow_mut().stage = "done".into();
 }
 
 /// client side of one request whose stream is already open: recv_response -> recv_data* -> recv_trailers
 pub async fn client_reader(mut stream: CliStream, out: Shared<MsgObs>) {
+    out.borrow_mut().stage = "recv_response".into();
     match stream.recv_response().await {
         Ok(resp) => {
             let mut o = out.borrow_mut();
@@ -182,12 +202,18 @@ pub async fn client_reader(mut stream: CliStream, out: Shared<MsgObs>) {
             o.head_info = format!("{} {}", resp.status().as_u16(), headermap_str(resp.headers()));
         }
         Err(e) => {
-            out.borrow_mut().head = stream_class(&e);
+            let mut o = out.borrow_mut();
+            o.head = stream_class(&e);
+            o.stage = "done".into();
             return;
         }
     }
     loop {
-        out.borrow_mut().recv_data_calls += 1;
+        {
+            let mut o = out.borrow_mut();
+            o.recv_data_calls += 1;
+            o.stage = "recv_data".into();
+        }
         match stream.recv_data().await {
             Ok(Some(b)) => {
                 let v = drain(b);
@@ -198,16 +224,20 @@ pub async fn client_reader(mut stream: CliStream, out: Shared<MsgObs>) {
                 break;
             }
             Err(e) => {
-                out.borrow_mut().body_end = stream_class(&e);
+                let mut o = out.borrow_mut();
+                o.body_end = stream_class(&e);
+                o.stage = "done".into();
                 return;
             }
         }
     }
+    out.borrow_mut().stage = "recv_trailers".into();
     match stream.recv_trailers().await {
         Ok(Some(t)) => out.borrow_mut().trailers = format!("some:{}", headermap_str(&t)),
         Ok(None) => out.borrow_mut().trailers = "none".into(),
         Err(e) => out.borrow_mut().trailers = stream_class(&e),
     }
+    out.borrow_mut().stage = "done".into();
 }
 
 /// Results of the connection driver: every `accept()` / `poll_close()` outcome in order.
@@ -215,13 +245,15 @@ pub async fn client_reader(mut stream: CliStream, out: Shared<MsgObs>) {
 pub struct DriverObs {
     pub results: Vec<String>,
     pub build: String,
+    /// a driver call (accept / poll_close) is in progress
+    pub in_call: bool,
 }
 
 /// Server main task: build, then accept in a loop, spawning `server_handler` per request.
 /// After the first error / None it calls accept `extra_calls` more times to check stability.
 pub async fn server_main(
     net: Net,
-    mut builder: h3::server::Builder,
+    builder: h3::server::Builder,
     spawner: Spawner,
     drv: Shared<DriverObs>,
     handlers: Shared<Vec<Shared<MsgObs>>>,
@@ -256,7 +288,10 @@ pub async fn server_main_with_state(
     };
     let mut after_end = 0;
     loop {
-        match conn.accept().await {
+        drv.borrow_mut().in_call = true;
+        let r = conn.accept().await;
+        drv.borrow_mut().in_call = false;
+        match r {
             Ok(Some(resolver)) => {
                 let o = shared(MsgObs::default());
                 handlers.borrow_mut().push(o.clone());
